@@ -67,6 +67,9 @@ FIRST_CONTACT = {   # seeds the checks missed when first run against them, and w
     "C18-10": "missed -> contract on COSPricer.butterfly (call combination for ANY three strikes; put tied to call by the proved parity)",
     "C19-9": "undecided (dict membership with a symbolic key) -> dicts with symbolic keys modelled (same-term policy, as for the memoising decorators)",
     "C08-9": "undecided (numpy.random.seed inside a task) -> ledger of re-seeds inside tasks over two passes and two levels: the seeds of all tasks of a run are pairwise distinct; native multilevel pool replay",
+    "C01-10": "missed -> lemma: the interval probability of the adapted tree belongs to ITS sampler (two samplers, two models, same grid; engine: dict keys that are tuples with symbolic entries)",
+    "C01-11": "missed -> lemma: create_q_vector for a second measure on the same grid object returns THAT measure's cell masses",
+    "C04-11": "missed -> lemma: compute_mu_h against create_q_vector under an ABSTRACT grid.middle (mu_h = sum of state x rate over the same cells) + probability-step grid in the native mean battery",
     "C08-10": "missed by C08 (C15's fixed-date pre-computation lemma, restated at the level of the Poisson generator, catches it) -> that unit now also runs under C08",
 }
 
